@@ -64,6 +64,7 @@ func TestC02(t *testing.T) {
 	spec := &GenSpec{Prop: "C02", Backings: []string{"mem", "store", "store", "store", "ll"}, MaxOps: 40,
 		Holds: true, Snapshots: true, Iterators: true, StoreSnaps: true, BigBatches: true, CloseTail: true,
 		Children: exclChildren("C02"), Compaction: []int{0, 1, 2, 2}}
+	applyExclusions(spec)
 	histCheck(t, spec, oraclesFor[spec.Prop],
 		"programs of C01 plus {take collection/child/store snapshot, open iterator with bounds, step/seek iterator, re-read snapshot, close handle, close collection, close store}; the reference of a handle is its first complete read; every later re-read (Get of every key, full iteration, children recursively) and every iterator step must match it. Non-trivial: a snapshot re-read after a later batch changed the collection AND at least one of {merger cycle, persister round, full compaction, Collection.Close, Store.Close} happened in between. Distinct = distinct program hash.",
 		nil)
@@ -79,6 +80,7 @@ func TestC10(t *testing.T) {
 func TestC08(t *testing.T) {
 	spec := &GenSpec{Prop: "C08", Backings: allBackings, MaxOps: 40, Holds: true, Reopen: true, Merge: true,
 		KeyPoolMax: 4, Children: exclChildren("C08"), Compaction: []int{0, 1, 1, 2}}
+	applyExclusions(spec)
 	histCheck(t, spec, oraclesFor[spec.Prop],
 		"histories over 1-4 keys with Set/Del/Merge under an order- and structure-sensitive operator ('(' existing '|' operand ')'), with merger cycles, held persister rounds, partial/full compaction, reopen, CachePersisted, application lower level; every read (snapshot Get + iteration after every op, store / lower-level content after every completed round, content after reopen) must equal the model fold. Non-trivial: a Merge operation and an older operation on the same key sit in different sections at a read moment. Distinct = distinct program hash.",
 		func(h *Hist) bool { return h.Labels["merge-cross-section"] > 0 })
@@ -86,7 +88,7 @@ func TestC08(t *testing.T) {
 
 func TestC11(t *testing.T) {
 	spec := &GenSpec{Prop: "C11", Backings: []string{"mem", "store", "store", "store"}, MaxOps: 30, Holds: true, Reopen: true,
-		Children: true}
+		Children: true, ChildPct: 60}
 	applyExclusions(spec)
 	histCheck(t, spec, oraclesFor[spec.Prop],
 		"histories over child names {A,B,C}, nesting <= 3: create by first mention (also with an empty child batch), write, delete, recreate, delete parent with grandchildren, child-only batches, same key at several levels; all controller steps, compaction concerns, reopen. After every op the collection (names as a set, nil snapshot for unknown names, full content of every child) equals the model tree; after every completed round the store does; after drain+reopen the reopened collection does. Non-trivial: a child is deleted or recreated while earlier data of it sits in another section or is already persisted, or a child-only batch is persisted as its own round. Distinct = distinct program hash.",
@@ -107,9 +109,9 @@ func TestC04(t *testing.T) {
 		Children: exclChildren("C04"), BigBatches: true, ReopenCfg: true}
 	applyExclusions(spec)
 	histCheck(t, spec, oraclesFor[spec.Prop],
-		"store-backed histories with 1-4 close/reopen cycles; close point generated: caught-up (controller runs merger cycles and rounds until every batch is covered by a completed round - event-confirmed) or early (batches still in top/mid/base, persister held at a gate); options may change on reopen. Caught-up: reopened collection == full reference. Early: reopened content == reference after some prefix p >= the prefix covered by the last completed round, never a mixture. Non-trivial: a reopen after >= 2 completed rounds, or an early close that really lost a suffix. Distinct = distinct program hash.",
+		"store-backed histories with 1-4 close/reopen cycles; close point generated: caught-up (controller runs merger cycles and rounds until every batch is covered by a completed round - event-confirmed) or early (batches still in top/mid/base, persister held at a gate); options may change on reopen. Caught-up: reopened collection == full reference. Early: reopened content == reference after some prefix p >= the prefix covered by the last completed round, never a mixture. Non-trivial: a caught-up reopen after >= 2 completed rounds that carried batches, or an early close that really lost a suffix. Distinct = distinct program hash.",
 		func(h *Hist) bool {
-			return (h.Labels["reopen:caught-up"] > 0 && h.Rounds >= 2) || h.Labels["reopen:early-lost-suffix"] > 0
+			return (h.Labels["reopen:caught-up"] > 0 && h.DataRounds >= 2) || h.Labels["reopen:early-lost-suffix"] > 0
 		})
 }
 
